@@ -674,21 +674,34 @@ def F37():
     tx_in._value, tx_in._script_pubkey = 100000, spk
     tx = Tx(2, [tx_in], [TxOut(90000, P2WPKHScriptPubKey(outsider.point.hash160()))], 0, network="testnet", segwit=True)
     tx_in.script_sig = Script([b"", outsider.point.hash160(), redeem.raw_serialize()])
-    results = []
-    for digest in ("bip143", "legacy"):
-        try:
-            if digest == "bip143":
-                tx_in.witness = Witness([b"x", outsider.point.sec()]); z = tx.sig_hash(0, 1)
-            else:
-                z = tx.sig_hash_legacy(0, 1, redeem_script=redeem)
-            sig = outsider.sign(z).der() + b"\x01"
-            tx_in.witness = Witness([sig, outsider.point.sec()])
-            with contextlib.redirect_stdout(io.StringIO()):
-                r = tx.verify_input(0)
-        except Exception as e:
-            r = type(e).__name__
-        results.append(r)
+    try:
+        tx_in.witness = Witness([b"x", outsider.point.sec()])
+        z = tx.sig_hash(0, 1)
+        tx_in.witness = Witness([outsider.sign(z).der() + b"\x01", outsider.point.sec()])
+        with contextlib.redirect_stdout(io.StringIO()):
+            r = tx.verify_input(0)
+    except Exception as e:
+        r = type(e).__name__
+    results = [r]
     return any(r is True for r in results), "verify_input of a 2-of-3 p2sh output spent with no key of the script -> %s" % results
+
+def F38():
+    """p2sh-p2wpkh change output carrying its BIP32 derivation (what PSBTOut.update attaches)"""
+    from buidl.hd import HDPrivateKey
+    from buidl.psbt import PSBTOut, NamedHDPublicKey
+    from buidl.script import RedeemScript, P2SHScriptPubKey
+    from buidl.tx import TxOut
+    root = HDPrivateKey.from_mnemonic("abandon " * 11 + "about", network="testnet")
+    path = "m/49'/1'/0'/1/0"
+    named = NamedHDPublicKey.from_hd_priv(root, path)
+    redeem = RedeemScript([0, root.traverse(path).pub.hash160()])
+    spk = P2SHScriptPubKey(redeem.hash160())
+    try:
+        PSBTOut(TxOut(1000, spk), redeem_script=redeem, named_pubs={named.sec(): named})
+        r = "accepted"
+    except Exception as e:
+        r = "%s: %s" % (type(e).__name__, str(e).split("\n")[0][:50])
+    return r != "accepted", "honest p2sh-p2wpkh output with derivation -> %s" % r
 
 def K1():
     from buidl.op import op_2rot
